@@ -224,28 +224,49 @@ theorem every_schedule_returns (files : List Nat) (jobs : Nat) (hj : 0 < jobs) (
 
 /-! ## (i) Naming -/
 
-/-- facts about the regenerated tables the naming theorems rest on: key bytes are safe file-name
-    bytes; the source pointer encoding is total (256 entries), per byte, safe and a prefix code;
-    the fixed names are plain; the two behavioural flags of the repaired code are on -/
+/-! ### facts about the regenerated tables and flags -/
+
+theorem fact_keep_safe : ∀ b ∈ Generated.keyKeep, safeByte b = true := by decide +kernel
+theorem fact_table_ok : tableOk Generated.sourceKeyByte = true := by decide +kernel
+theorem fact_table_safe : ∀ e ∈ Generated.sourceKeyByte, e.all safeByte = true := by decide +kernel
+theorem fact_suffix : Generated.pageSourceSuffix = html := by decide
+theorem fact_keyed : Generated.individualsKeyedWithPlaces = true := by decide
+theorem fact_slink : Generated.surnameLinkUsesIndexLetter = true := by decide
+theorem fact_escapes : Generated.sourceKeyEscapesFixed = true := by decide
+theorem fact_avoid : Generated.keysAvoidReserved = true := by decide
+theorem fact_skip : Generated.keysSkipHidden = true := by decide
+theorem fact_fixed_names : fixedNames = fixedKeys.map (· ++ html) := by decide +kernel
+theorem fact_fixed_nodup : fixedNames.Nodup := by decide +kernel
+theorem fact_fixed_head : ∀ k ∈ fixedKeys, k.head? ≠ some 95 ∧ k ≠ [] := by decide +kernel
+
+/-- the facts the naming theorems rest on, regenerated from the code on every run: key bytes are
+    safe file-name bytes; the source pointer encoding is total (256 entries), per byte, each entry
+    the byte itself or its `_xx` escape, all safe; the fixed names are `key.html`, pairwise distinct
+    and do not start with `_`; the five behavioural flags of the repaired code are on -/
 theorem naming_facts :
     (∀ b ∈ Generated.keyKeep, safeByte b = true)
-    ∧ Generated.sourceKeyByte.length = 256
+    ∧ tableOk Generated.sourceKeyByte = true
     ∧ Generated.sourceKeyBytewise = true
     ∧ (∀ e ∈ Generated.sourceKeyByte, e.all safeByte = true)
-    ∧ prefixFree Generated.sourceKeyByte = true
     ∧ Generated.pageSourceSuffix = html
+    ∧ fixedNames = fixedKeys.map (· ++ html) ∧ fixedNames.Nodup
     ∧ Generated.individualsKeyedWithPlaces = true
-    ∧ Generated.surnameLinkUsesIndexLetter = true := by
-  refine ⟨by decide +kernel, by decide +kernel, by decide, by decide +kernel, by decide +kernel, by decide, by decide, by decide⟩
+    ∧ Generated.surnameLinkUsesIndexLetter = true
+    ∧ Generated.sourceKeyEscapesFixed = true
+    ∧ Generated.keysAvoidReserved = true
+    ∧ Generated.keysSkipHidden = true :=
+  ⟨fact_keep_safe, fact_table_ok, by decide, fact_table_safe, fact_suffix, fact_fixed_names,
+   fact_fixed_nodup, fact_keyed, fact_slink, fact_escapes, fact_avoid, fact_skip⟩
 
 theorem keep_dash : ∀ b ∈ Generated.keyDash, keep b = true := by decide
 theorem keep_fold : ∀ e ∈ Generated.lowerFold, keep e.2 = true := by decide
 theorem keep_digits : ∀ n, n < 58 → 48 ≤ n → keep (UInt8.ofNat n) = true := by decide
 theorem keep_minus : keep 45 = true := by decide
 
+
 theorem keep_safe (b : UInt8) (h : keep b = true) : safeByte b = true := by
   unfold keep at h
-  exact naming_facts.1 b (by simpa using h)
+  exact fact_keep_safe b (by simpa using h)
 
 theorem foldAt_keep {s : Str} {c : UInt8} {n : Nat} (h : foldAt s = some (c, n)) : keep c = true := by
   unfold foldAt at h
@@ -390,48 +411,7 @@ theorem map_html_nodup (l : List Str) (h : l.Nodup) : (l.map (· ++ html)).Nodup
   rw [List.Nodup, List.pairwise_map]
   exact List.Pairwise.imp (fun hne e => hne (List.append_cancel_right e)) h
 
-/-- **No two individual or place pages share a name** (site level, the places map of the repaired
-    `NewPublisher`): the individual pages and the place pages `sendFiles` produces are pairwise
-    distinct, for every document and every option set. -/
-theorem names_injective_site (s : Site) :
-    ((if s.showIndividuals then s.individualFiles else [])
-      ++ (if s.showPlaces then s.placeFiles else [])).Nodup := by
-  have hk := names_injective s.names s.keyPlaces
-  have hind : s.individualFiles.Nodup :=
-    map_html_nodup _ (hk.1.sublist (zipFilter_sublist _ _))
-  have hpl : s.placeFiles.Nodup := map_html_nodup _ (placeEntries_keys_nodup s.places)
-  cases hi : s.showIndividuals <;> cases hp : s.showPlaces <;> simp only [if_true, if_false,
-    Bool.false_eq_true, List.nil_append, List.append_nil, List.nodup_nil]
-  · exact hpl
-  · exact hind
-  · rw [List.nodup_append]
-    refine ⟨hind, hpl, ?_⟩
-    intro a ha b hb e
-    subst e
-    obtain ⟨k, hk', rfl⟩ := List.mem_map.mp ha
-    obtain ⟨p, hp', hpe⟩ := List.mem_map.mp hb
-    have hkp : p = k := List.append_cancel_right hpe
-    subst hkp
-    have hkeys : s.keyPlaces = s.placeKeys := by
-      simp [Site.keyPlaces, naming_facts.2.2.2.2.2.2.1, hp]
-    exact hk.2.1 p (zipFilter_sub _ _ p hk') (hkeys ▸ hp')
-
-/-- the places map matters: with a nil places map (what `NewPublisher` passed before the repair) a
-    person and a place get the same file: "Oldtown" born in "Oldtown" -/
-theorem names_injective_counterexample :
-    individualKeys [bs!"Oldtown"] [] = [bs!"oldtown"]
-    ∧ (placeEntries [bs!"Oldtown"]).map (·.1) = [bs!"oldtown"]
-    ∧ individualKeys [bs!"Oldtown"] [bs!"oldtown"] = [bs!"oldtown-1"] := by
-  decide +kernel
-
-theorem sourceKey_eq (ptr : Str) :
-    sourceKey ptr = ptr.flatMap (fun c => Generated.sourceKeyByte.getD c.toNat [c]) := rfl
-
-/-- **Source pages never share a name**: different pointers give different file names -/
-theorem sources_injective (p q : Str) (h : pageSource p = pageSource q) : p = q := by
-  unfold pageSource at h
-  have := List.append_cancel_right h
-  exact flatMap_table_injective _ naming_facts.2.1 naming_facts.2.2.2.2.1 p q this
+theorem map_html_inj {a b : Str} (h : a ++ html = b ++ html) : a = b := List.append_cancel_right h
 
 theorem plain_of_safe (k : Str) (h : ∀ b ∈ k, safeByte b = true) : plain (k ++ html) = true := by
   unfold plain
@@ -442,16 +422,84 @@ theorem plain_of_safe (k : Str) (h : ∀ b ∈ k, safeByte b = true) : plain (k 
 theorem plain_of_keep (k : Str) (h : ∀ b ∈ k, keep b = true) : plain (k ++ html) = true :=
   plain_of_safe k (fun b hb => keep_safe b (h b hb))
 
-theorem sourceKey_safe (ptr : Str) : ∀ b ∈ sourceKey ptr, safeByte b = true := by
+
+/-! ### source keys -/
+
+theorem isFixedKey_iff (k : Str) : isFixedKey k = true ↔ k ∈ fixedKeys := by
+  unfold isFixedKey
+  rw [List.contains_iff_mem, fact_fixed_names]
+  constructor
+  · intro h
+    obtain ⟨k', hk', e⟩ := List.mem_map.mp h
+    rw [← map_html_inj e]; exact hk'
+  · intro h; exact List.mem_map.mpr ⟨k, h, rfl⟩
+
+theorem sourceKeyRaw_safe (ptr : Str) : ∀ b ∈ sourceKeyRaw ptr, safeByte b = true := by
   intro b hb
-  unfold sourceKey at hb
+  unfold sourceKeyRaw at hb
   obtain ⟨c, _, hc⟩ := List.mem_flatMap.mp hb
+  have hok := fact_table_ok
+  unfold tableOk at hok
+  simp only [Bool.and_eq_true, beq_iff_eq] at hok
   have hlt : c.toNat < Generated.sourceKeyByte.length := by
-    rw [naming_facts.2.1]; exact UInt8.toNat_lt c
+    rw [hok.1]; exact UInt8.toNat_lt c
   have hmem : Generated.sourceKeyByte.getD c.toNat [c] ∈ Generated.sourceKeyByte := by
     simp [List.getD, List.getElem?_eq_getElem hlt]
-  have := naming_facts.2.2.2.1 _ hmem
-  exact List.all_eq_true.mp this b hc
+  exact List.all_eq_true.mp (fact_table_safe _ hmem) b hc
+
+theorem hexDigit_safe : ∀ d, d < 16 → safeByte (hexDigit d) = true := by decide
+
+theorem escapeFirst_safe (k : Str) (h : ∀ b ∈ k, safeByte b = true) : ∀ b ∈ escapeFirst k, safeByte b = true := by
+  cases k with
+  | nil => simp [escapeFirst]
+  | cons x t =>
+    intro b hb
+    simp only [escapeFirst, List.mem_cons] at hb
+    rcases hb with rfl | rfl | rfl | hb
+    · decide
+    · exact hexDigit_safe _ (by have := UInt8.toNat_lt x; omega)
+    · exact hexDigit_safe _ (Nat.mod_lt _ (by omega))
+    · exact h b (by simp [hb])
+
+theorem sourceKey_safe (ptr : Str) : ∀ b ∈ sourceKey ptr, safeByte b = true := by
+  unfold sourceKey
+  simp only []
+  split
+  · exact escapeFirst_safe _ (sourceKeyRaw_safe ptr)
+  · exact sourceKeyRaw_safe ptr
+
+/-- the key of a source can be read back: `decodeKey (sourceKey p) = p` -/
+theorem sourceKey_decode (ptr : Str) : decodeKey (sourceKey ptr) = ptr := by
+  have hraw : decodeKey (sourceKeyRaw ptr) = ptr := decode_flatMap _ fact_table_ok ptr
+  unfold sourceKey
+  simp only []
+  split
+  · rename_i h
+    simp only [Bool.and_eq_true] at h
+    rw [decode_escapeFirst _ (fact_fixed_head _ ((isFixedKey_iff _).mp h.2)).1, hraw]
+  · exact hraw
+
+/-- the key of a source is never the key of a fixed page -/
+theorem sourceKey_not_fixed (ptr : Str) : sourceKey ptr ∉ fixedKeys := by
+  unfold sourceKey
+  simp only [fact_escapes, Bool.true_and]
+  split
+  · rename_i h
+    have hf := fact_fixed_head _ ((isFixedKey_iff _).mp h)
+    intro hm
+    have := (fact_fixed_head _ hm).1
+    cases hr : sourceKeyRaw ptr with
+    | nil => exact hf.2 hr
+    | cons b t => rw [hr] at this; simp [escapeFirst] at this
+  · rename_i h
+    intro hm
+    exact h ((isFixedKey_iff _).mpr hm)
+
+/-- **Source pages never share a name**: different pointers give different file names -/
+theorem sources_injective (p q : Str) (h : pageSource p = pageSource q) : p = q := by
+  unfold pageSource at h
+  have := List.append_cancel_right h
+  rw [← sourceKey_decode p, ← sourceKey_decode q, this]
 
 theorem pageIndividuals_plain (l : UInt8) (h : l = Generated.symbolLetter ∨ (97 ≤ l.toNat ∧ l.toNat ≤ 122)) :
     plain (pageIndividuals l) = true := by
@@ -488,6 +536,32 @@ theorem indexLetters_range (surnames : List Str) :
     obtain ⟨sn, _, rfl⟩ := List.mem_map.mp this
     exact indexLetter_range sn
 
+
+/-! ### the keys of a site -/
+
+theorem placeKeys_nodup (s : Site) : s.placeKeys.Nodup := placeEntriesR_keys_nodup _ _
+
+theorem placeKey_mem (s : Site) : ∀ k ∈ s.placeKeys,
+    k ∉ s.reserved ∧ ∃ p i, k = candidate (sanitize p) i := by
+  intro k hk
+  unfold Site.placeKeys Site.placeEntries at hk
+  obtain ⟨kv, hkv, rfl⟩ := List.mem_map.mp hk
+  rw [placeEntriesR_key _ _ kv hkv]
+  obtain ⟨h1, i, h2⟩ := placeKey_spec s.reserved kv.2
+  exact ⟨h1, kv.2, i, h2⟩
+
+/-- the keys of the individual pages are keys `GetIndividuals` handed out (to the people who get
+    a page, or to everybody and then filtered) -/
+theorem individualPageKeys_sub (s : Site) :
+    ∃ ns, s.individualPageKeys.Sublist (individualKeys ns s.keyPlaces) := by
+  unfold Site.individualPageKeys
+  split
+  · exact ⟨_, List.Sublist.refl _⟩
+  · exact ⟨_, zipFilter_sublist _ _⟩
+
+theorem reserved_eq (s : Site) : s.reserved = fixedKeys ++ s.sourcePtrs.map sourceKey := by
+  simp [Site.reserved, reservedKeys, fact_avoid]
+
 /-- **Names are confined** (full strength): whatever the names, places and pointers in the file —
     `../x`, `a/b`, `S/../x`, NUL, invalid UTF-8 — every file name `sendFiles` produces is a plain
     `[A-Za-z0-9_-]*.html` name: no separator, no dot but the suffix, so it stays inside the output
@@ -505,17 +579,16 @@ theorem names_confined (s : Site)
         exact pageIndividuals_plain l (hl l hl')
       · unfold Site.individualFiles at hn
         obtain ⟨k, hk, rfl⟩ := List.mem_map.mp hn
-        have := zipFilter_sub _ _ k hk
-        exact plain_of_keep k ((names_injective s.names s.keyPlaces).2.2.1 k this)
+        obtain ⟨ns, hsub⟩ := individualPageKeys_sub s
+        exact plain_of_keep k ((names_injective ns s.keyPlaces).2.2.1 k (hsub.subset hk))
     · simp at hn
   · split at hn
     · rcases List.mem_cons.mp hn with hn | hn
       · subst hn; decide +kernel
-      · unfold Site.placeFiles Site.placeKeys at hn
+      · unfold Site.placeFiles at hn
         obtain ⟨k, hk, rfl⟩ := List.mem_map.mp hn
-        obtain ⟨kv, hkv, rfl⟩ := List.mem_map.mp hk
-        rw [placeEntries_key _ kv hkv]
-        exact plain_of_keep _ (sanitize_confined kv.2)
+        obtain ⟨_, p, i, rfl⟩ := placeKey_mem s k hk
+        exact plain_of_keep _ (candidate_confined _ i (sanitize_confined p))
     · simp at hn
   · split at hn
     · simp at hn; subst hn; decide +kernel
@@ -529,7 +602,7 @@ theorem names_confined (s : Site)
       · unfold Site.sourceFiles at hn
         obtain ⟨p, _, rfl⟩ := List.mem_map.mp hn
         unfold pageSource
-        rw [naming_facts.2.2.2.2.2.1]
+        rw [fact_suffix]
         exact plain_of_safe _ (sourceKey_safe p)
     · simp at hn
   · split at hn
@@ -542,43 +615,240 @@ theorem names_confined_site (s : Site) (surnames : List Str) (h : s.letters = in
     ∀ n ∈ s.fileNames, plain n = true :=
   names_confined s (fun l hl => indexLetters_range surnames l (h ▸ hl))
 
-/-- the hostile pointer of the property: `0 @S/../x@ SOUR` is written to `S_2f_2e_2e_2fx.html`
-    (the unrepaired code wrote `S/../x.html`, outside the output directory) -/
+/-- the hostile pointers of the property: `0 @S/../x@ SOUR` is written to `S_2f_2e_2e_2fx.html`
+    (the unrepaired code wrote `S/../x.html`, outside the output directory) and `0 @places@ SOUR`
+    to `_70laces.html`, not over the place list -/
 theorem source_name_witness :
     pageSource bs!"S/../x" = bs!"S_2f_2e_2e_2fx.html" ∧ plain (pageSource bs!"S/../x") = true
-    ∧ plain bs!"S/../x.html" = false ∧ pageSource bs!"S1" = bs!"S1.html" := by
+    ∧ plain bs!"S/../x.html" = false ∧ pageSource bs!"S1" = bs!"S1.html"
+    ∧ pageSource bs!"places" = bs!"_70laces.html" := by
   decide +kernel
 
-/-- what is *not* excluded: a person, place or source whose key equals the name of a fixed page
-    ("Places", "individuals a", pointer `sources`) is written over that page — known finding -/
-theorem reserved_name_counterexample :
-    let s : Site := { names := [bs!"Places"], hidden := [false], letters := [112],
-                      places := [], sourcePtrs := [bs!"sources"],
-                      showIndividuals := true, showPlaces := true, showFamilies := true,
-                      showSurnames := true, showSources := true, showStatistics := true }
-    ¬ s.fileNames.Nodup
-    ∧ (s.fileNames.filter (· == bs!"places.html")).length = 2
-    ∧ (s.fileNames.filter (· == bs!"sources.html")).length = 2 := by
+/-! ### no two pages share a name -/
+
+theorem ite_sublist {α} (b : Bool) (l : List α) : (if b then l else []).Sublist l := by
+  cases b <;> simp
+
+/-- the nine parts of the file list, regrouped by kind -/
+theorem regroup (A I P S : List Str) (pl fa su so st : Str) :
+    ((A ++ I) ++ (pl :: P) ++ [fa] ++ [su] ++ (so :: S) ++ [st]).Perm
+      ((A ++ [pl, fa, su, so, st]) ++ S ++ P ++ I) := by
+  rw [List.perm_iff_count]
+  intro a
+  simp only [List.count_append, List.count_cons, List.count_nil]
+  omega
+
+theorem inj_of_nodup_map {α β} (f : α → β) (l : List α) (h : (l.map f).Nodup) :
+    ∀ x ∈ l, ∀ y ∈ l, f x = f y → x = y := by
+  induction l with
+  | nil => simp
+  | cons a t ih =>
+    simp only [List.map_cons, List.nodup_cons] at h
+    intro x hx y hy e
+    rcases List.mem_cons.mp hx with hxa | hx
+    · rcases List.mem_cons.mp hy with hya | hy
+      · rw [hxa, hya]
+      · exact absurd (List.mem_map.mpr ⟨y, hy, by rw [← e, hxa]⟩) h.1
+    · rcases List.mem_cons.mp hy with hya | hy
+      · exact absurd (List.mem_map.mpr ⟨x, hx, by rw [e, hya]⟩) h.1
+      · exact ih h.2 x hx y hy e
+
+/-- the letters an index can have: `#` and `a`..`z` -/
+def validLetters : List UInt8 := Generated.symbolLetter :: (List.range 26).map (fun i => UInt8.ofNat (97 + i))
+
+theorem validLetters_pages : validLetters.map pageIndividuals ⊆ fixedNames ∧ (validLetters.map pageIndividuals).Nodup := by
+  decide +kernel
+
+theorem mem_validLetters (l : UInt8) (h : l = Generated.symbolLetter ∨ (97 ≤ l.toNat ∧ l.toNat ≤ 122)) :
+    l ∈ validLetters := by
+  rcases h with h | h
+  · subst h; simp [validLetters]
+  · refine List.mem_cons_of_mem _ (List.mem_map.mpr ⟨l.toNat - 97, List.mem_range.mpr (by omega), ?_⟩)
+    have : 97 + (l.toNat - 97) = l.toNat := by omega
+    rw [this]; simp
+
+theorem fixed_literals :
+    [Generated.pagePlacesName, Generated.pageFamiliesName, Generated.pageSurnamesName,
+     Generated.pageSourcesName, Generated.pageStatisticsName].Nodup
+    ∧ (∀ n ∈ [Generated.pagePlacesName, Generated.pageFamiliesName, Generated.pageSurnamesName,
+              Generated.pageSourcesName, Generated.pageStatisticsName],
+        n ∈ fixedNames ∧ n ∉ validLetters.map pageIndividuals) := by
+  decide +kernel
+
+theorem not_fixed_of_key {k : Str} (h : k ∉ fixedKeys) : k ++ html ∉ fixedNames := by
+  rw [fact_fixed_names]
+  intro hm
+  obtain ⟨k', hk', e⟩ := List.mem_map.mp hm
+  exact h (map_html_inj e ▸ hk')
+
+/-- **No two pages share a name** — all page kinds, fixed pages included: the file names
+    `sendFiles` produces are pairwise distinct, for every document (any names, places, pointers —
+    a person called "Places", a place called "Statistics", a source `@ann-smith@` next to Ann
+    Smith, `@sources@`), every visibility and every subset of page groups.  Hypotheses: the index
+    letters are distinct letters (`indexLetters_nodup`, `indexLetters_range`) and the source
+    records have distinct pointers. -/
+theorem site_names_injective (s : Site)
+    (hl : ∀ l ∈ s.letters, l = Generated.symbolLetter ∨ (97 ≤ l.toNat ∧ l.toNat ≤ 122))
+    (hln : s.letters.Nodup) (hsp : s.sourcePtrs.Nodup) : s.fileNames.Nodup := by
+  -- the parts
+  let A := s.letters.map pageIndividuals
+  let I := s.individualFiles
+  let P := if s.showPlaces then s.placeFiles else []
+  let S := s.sourceFiles
+  have hsub : s.fileNames.Sublist
+      ((A ++ I) ++ (Generated.pagePlacesName :: P) ++ [Generated.pageFamiliesName]
+        ++ [Generated.pageSurnamesName] ++ (Generated.pageSourcesName :: S) ++ [Generated.pageStatisticsName]) := by
+    unfold Site.fileNames
+    refine List.Sublist.append (List.Sublist.append (List.Sublist.append (List.Sublist.append
+      (List.Sublist.append (ite_sublist _ _) ?_) (ite_sublist _ _)) (ite_sublist _ _)) (ite_sublist _ _)) (ite_sublist _ _)
+    show (if s.showPlaces then Generated.pagePlacesName :: s.placeFiles else []).Sublist
+      (Generated.pagePlacesName :: (if s.showPlaces then s.placeFiles else []))
+    cases s.showPlaces <;> simp
+  refine List.Nodup.sublist hsub ((regroup A I P S _ _ _ _ _).nodup_iff.mpr ?_)
+  -- membership facts
+  have hres := reserved_eq s
+  have hA : ∀ n ∈ A, n ∈ validLetters.map pageIndividuals := by
+    intro n hn
+    obtain ⟨l, hl', rfl⟩ := List.mem_map.mp hn
+    exact List.mem_map.mpr ⟨l, mem_validLetters l (hl l hl'), rfl⟩
+  have hFX : ∀ n ∈ A ++ [Generated.pagePlacesName, Generated.pageFamiliesName, Generated.pageSurnamesName,
+      Generated.pageSourcesName, Generated.pageStatisticsName], n ∈ fixedNames := by
+    intro n hn
+    rcases List.mem_append.mp hn with hn | hn
+    · exact validLetters_pages.1 (hA n hn)
+    · exact (fixed_literals.2 n hn).1
+  have hS : ∀ n ∈ S, ∃ p ∈ s.sourcePtrs, n = sourceKey p ++ html := by
+    intro n hn
+    obtain ⟨p, hp, rfl⟩ := List.mem_map.mp hn
+    exact ⟨p, hp, by unfold pageSource; rw [fact_suffix]⟩
+  have hP : ∀ n ∈ P, s.showPlaces = true ∧ ∃ k ∈ s.placeKeys, n = k ++ html := by
+    intro n hn
+    cases hp : s.showPlaces with
+    | false => simp [P, hp] at hn
+    | true =>
+      simp only [P, hp, if_true] at hn
+      obtain ⟨k, hk, rfl⟩ := List.mem_map.mp hn
+      exact ⟨rfl, k, hk, rfl⟩
+  obtain ⟨ns, hksub⟩ := individualPageKeys_sub s
+  have hkeys := names_injective ns s.keyPlaces
+  have hI : ∀ n ∈ I, ∃ k, n = k ++ html ∧ k ∉ s.keyPlaces := by
+    intro n hn
+    obtain ⟨k, hk, rfl⟩ := List.mem_map.mp hn
+    exact ⟨k, rfl, hkeys.2.1 k (hksub.subset hk)⟩
+  -- Nodup of each part
+  have hAn : A.Nodup := by
+    rw [List.Nodup, List.pairwise_map]
+    refine List.Pairwise.imp_of_mem ?_ hln
+    intro a b ha hb hne e
+    exact hne (inj_of_nodup_map pageIndividuals validLetters validLetters_pages.2 a
+      (mem_validLetters a (hl a ha)) b (mem_validLetters b (hl b hb)) e)
+  have hFXn : (A ++ [Generated.pagePlacesName, Generated.pageFamiliesName, Generated.pageSurnamesName,
+      Generated.pageSourcesName, Generated.pageStatisticsName]).Nodup := by
+    rw [List.nodup_append]
+    refine ⟨hAn, fixed_literals.1, ?_⟩
+    intro a ha b hb e
+    subst e
+    exact (fixed_literals.2 a hb).2 (hA a ha)
+  have hSn : S.Nodup := by
+    show (List.map pageSource s.sourcePtrs).Nodup
+    rw [List.Nodup, List.pairwise_map]
+    exact List.Pairwise.imp (fun hne e => hne (sources_injective _ _ e)) hsp
+  have hPn : P.Nodup := by
+    cases hp : s.showPlaces with
+    | false => simp [P, hp]
+    | true => simp only [P, hp, if_true]; exact map_html_nodup _ (placeKeys_nodup s)
+  have hIn : I.Nodup := map_html_nodup _ (hkeys.1.sublist hksub)
+  -- assemble: fixed, then sources, then places, then individuals
+  rw [List.nodup_append]
+  refine ⟨?_, hIn, ?_⟩
+  · rw [List.nodup_append]
+    refine ⟨?_, hPn, ?_⟩
+    · rw [List.nodup_append]
+      refine ⟨hFXn, hSn, ?_⟩
+      intro a ha b hb e
+      subst e
+      obtain ⟨p, _, rfl⟩ := hS a hb
+      exact not_fixed_of_key (sourceKey_not_fixed p) (hFX _ ha)
+    · intro a ha b hb e
+      subst e
+      obtain ⟨_, k, hk, rfl⟩ := hP a hb
+      have hnr := (placeKey_mem s k hk).1
+      rw [hres] at hnr
+      rcases List.mem_append.mp ha with ha | ha
+      · exact not_fixed_of_key (fun h => hnr (List.mem_append.mpr (Or.inl h))) (hFX _ ha)
+      · obtain ⟨p, hp, e⟩ := hS _ ha
+        exact hnr (List.mem_append.mpr (Or.inr (List.mem_map.mpr ⟨p, hp, (map_html_inj e).symm⟩)))
+  · intro a ha b hb e
+    subst e
+    obtain ⟨k, rfl, hk⟩ := hI a hb
+    have hk1 : k ∉ s.reserved := fun h => hk (by unfold Site.keyPlaces; exact List.mem_append.mpr (Or.inr h))
+    rw [hres] at hk1
+    rcases List.mem_append.mp ha with ha | ha
+    · rcases List.mem_append.mp ha with ha | ha
+      · exact not_fixed_of_key (fun h => hk1 (List.mem_append.mpr (Or.inl h))) (hFX _ ha)
+      · obtain ⟨p, hp, e⟩ := hS _ ha
+        exact hk1 (List.mem_append.mpr (Or.inr (List.mem_map.mpr ⟨p, hp, (map_html_inj e).symm⟩)))
+    · obtain ⟨hsp', k', hk', e⟩ := hP _ ha
+      apply hk
+      unfold Site.keyPlaces
+      refine List.mem_append.mpr (Or.inl ?_)
+      simp only [fact_keyed, hsp', Bool.and_self, if_true]
+      rw [map_html_inj e]; exact hk'
+
+theorem indexLetters_nodup (surnames : List Str) : (indexLetters surnames).Nodup := by
+  unfold indexLetters
+  simp only []
+  rw [List.nodup_append]
+  refine ⟨by split <;> simp, ?_, ?_⟩
+  · refine List.Nodup.sublist List.filter_sublist ?_
+    have : validLetters.Nodup := by decide +kernel
+    exact (List.nodup_cons.mp this).2
+  · intro a ha b hb e
+    subst e
+    have hb' := (List.mem_filter.mp hb).1
+    have : a = Generated.symbolLetter := by
+      split at ha
+      · simpa using ha
+      · simp at ha
+    subst this
+    have hv : validLetters.Nodup := by decide +kernel
+    exact (List.nodup_cons.mp hv).1 hb'
+
+/-- … with the letters `GetIndexLetters` computes: the only hypothesis left is that the source
+    records have distinct pointers -/
+theorem site_names_injective_letters (s : Site) (surnames : List Str) (h : s.letters = indexLetters surnames)
+    (hsp : s.sourcePtrs.Nodup) : s.fileNames.Nodup :=
+  site_names_injective s (fun l hl => indexLetters_range surnames l (h ▸ hl))
+    (h ▸ indexLetters_nodup surnames) hsp
+
+/-- what the reserved keys are for: with a nil places map and no reserved keys (the code before
+    the repairs) a person and a place get the same file, "Oldtown" born in "Oldtown", and a
+    person called "Places" gets the file of the place list -/
+theorem names_injective_counterexample :
+    individualKeys [bs!"Oldtown"] [] = [bs!"oldtown"]
+    ∧ (placeEntries [bs!"Oldtown"]).map (·.1) = [bs!"oldtown"]
+    ∧ individualKeys [bs!"Oldtown"] [bs!"oldtown"] = [bs!"oldtown-1"]
+    ∧ individualKeys [bs!"Places"] [] = [bs!"places"]
+    ∧ individualKeys [bs!"Places"] fixedKeys = [bs!"places-1"] := by
   decide +kernel
 
 /-! ## Links -/
 
 /-- **Links are closed** (links to individuals): in every page group — constructed before or after
-    the places were collected — a link to the i-th individual is `#` or names a generated file,
-    provided individual pages are published. -/
-theorem links_closed (s : Site) (late : Bool) (i : Nat) (hidden : Bool) (hs : s.showIndividuals = true)
-    (hh : s.hidden[i]? = some hidden) :
-    pageIndividual s.names (s.linkPlaces late) hidden i = [35]
-    ∨ pageIndividual s.names (s.linkPlaces late) hidden i ∈ s.fileNames := by
+    the places were collected — a link to the i-th individual is `#` (hidden) or names a generated
+    file, provided individual pages are published. -/
+theorem links_closed (s : Site) (late : Bool) (i : Nat) (hs : s.showIndividuals = true) :
+    pageIndividualV s.names s.hidden (s.linkPlaces late) i = [35]
+    ∨ pageIndividualV s.names s.hidden (s.linkPlaces late) i ∈ s.fileNames := by
   have hlp : s.linkPlaces late = s.keyPlaces := by
-    simp [Site.linkPlaces, Site.keyPlaces, naming_facts.2.2.2.2.2.2.1, Bool.and_comm]
+    simp [Site.linkPlaces, Site.keyPlaces, fact_keyed, Bool.and_comm]
   rw [hlp]
-  unfold pageIndividual
-  cases hidden with
+  unfold pageIndividualV pageIndividual
+  cases s.hidden.getD i false with
   | true => exact Or.inl rfl
   | false =>
     simp only [Bool.false_eq_true, if_false]
-    cases hk : (individualKeys s.names s.keyPlaces)[i]? with
+    cases hk : (individualKeys (keyedNames s.names s.hidden) s.keyPlaces)[keyRank s.hidden i]? with
     | none => exact Or.inl rfl
     | some k =>
       right
@@ -586,15 +856,16 @@ theorem links_closed (s : Site) (late : Bool) (i : Nat) (hidden : Bool) (hs : s.
       unfold Site.fileNames
       simp only [hs, if_true, List.mem_append]
       refine Or.inl (Or.inl (Or.inl (Or.inl (Or.inl (Or.inr ?_)))))
-      unfold Site.individualFiles
-      exact List.mem_map.mpr ⟨k, zipFilter_mem _ _ i k hk hh, rfl⟩
+      unfold Site.individualFiles Site.individualPageKeys
+      simp only [fact_skip, if_true]
+      exact List.mem_map.mpr ⟨k, List.mem_of_getElem? hk, rfl⟩
 
 /-- **Links are closed** (links to places): `#` or the page of a published place -/
 theorem place_links_closed (s : Site) (pretty : Str) (hs : s.showPlaces = true) :
-    pagePlace pretty (placeEntries s.places) = [35]
-    ∨ pagePlace pretty (placeEntries s.places) ∈ s.fileNames := by
+    pagePlace pretty s.placeEntries = [35]
+    ∨ pagePlace pretty s.placeEntries ∈ s.fileNames := by
   unfold pagePlace
-  cases hf : (placeEntries s.places).find? (fun kv => kv.2 == pretty) with
+  cases hf : s.placeEntries.find? (fun kv => kv.2 == pretty) with
   | none => exact Or.inl rfl
   | some kv =>
     right
@@ -636,8 +907,8 @@ theorem links_disabled_group_counterexample :
                       places := [], sourcePtrs := [],
                       showIndividuals := false, showPlaces := true, showFamilies := true,
                       showSurnames := true, showSources := true, showStatistics := true }
-    pageIndividual s.names (s.linkPlaces true) false 0 = bs!"ann-smith.html"
-    ∧ pageIndividual s.names (s.linkPlaces true) false 0 ∉ s.fileNames := by
+    pageIndividualV s.names s.hidden (s.linkPlaces true) 0 = bs!"ann-smith.html"
+    ∧ pageIndividualV s.names s.hidden (s.linkPlaces true) 0 ∉ s.fileNames := by
   decide +kernel
 
 /-! ## Determinism -/
@@ -667,20 +938,27 @@ theorem deterministic_in_inputs (names places : List Str) (order : List (Str × 
     rw [this]
     cases (individualKeys names places)[i]? <;> rfl
 
-/-- the same for places: `PagePlace` ranges over the places map; the result does not depend on
-    the iteration order -/
-theorem deterministic_places (ps : List Str) (order : List (Str × Str))
-    (hp : order.Perm (placeEntries ps)) (pretty : Str) :
-    pagePlace pretty order = pagePlace pretty (placeEntries ps) := by
-  unfold pagePlace
+/-- the same for places, from the PLAC values of the file: the pretty name of a value and its key
+    are functions of the value (`prettyPlaceName`, `sanitize`, the reserved keys), the first
+    spelling in the document names the page, and `PagePlace`, which ranges over the places map, gives
+    the same page for every iteration order (`order` = any permutation of the entries) -/
+theorem deterministic_places (s : Site) (order : List (Str × Str))
+    (hp : order.Perm (placeEntriesR s.reserved (s.places.map prettyOf))) (pretty : Str) :
+    pagePlace pretty order = pagePlace pretty s.placeEntries := by
+  unfold pagePlace Site.placeEntries
   have hu : ∀ a ∈ order, ∀ b ∈ order, (a.2 == pretty) = true → (b.2 == pretty) = true → a = b := by
     intro a ha b hb h1 h2
-    have ha' := placeEntries_key ps a (hp.mem_iff.mp ha)
-    have hb' := placeEntries_key ps b (hp.mem_iff.mp hb)
+    have ha' := placeEntriesR_key _ _ a (hp.mem_iff.mp ha)
+    have hb' := placeEntriesR_key _ _ b (hp.mem_iff.mp hb)
     simp at h1 h2
     have h2' : a.2 = b.2 := h1.trans h2.symm
     exact Prod.ext (by rw [ha', hb', h2']) h2'
   rw [find_perm_unique _ order _ hp hu]
+
+/-- `prettyPlaceName` on the spellings that share a page: one pretty name, one key -/
+example : prettyOf bs!"Paris,,France" = bs!"Paris, France" ∧ prettyOf bs!" ,Paris,France, " = bs!"Paris, France"
+    ∧ prettyOf bs!",," = bs!"(none)" ∧ sanitize (prettyOf bs!"Old,Town") = bs!"old-town" := by
+  decide +kernel
 
 /-! ## Non-vacuity -/
 
@@ -701,14 +979,30 @@ example : individualKeys [bs!"Old Town", bs!"old-town", bs!"Old,Town"] [bs!"old-
 example : sanitize bs!"../x" = bs!"-x" ∧ sanitize bs!"a/b" = bs!"a-b" ∧ sanitize bs!"王 1st" = bs!"-1st" := by
   decide +kernel
 
-/-- a site that meets the hypotheses of `names_confined` and `links_closed` with hostile input -/
+/-- a site that meets the hypotheses of `names_confined`, `site_names_injective` and `links_closed`
+    with hostile input: a person called like a place, like a fixed page and like a source; a place
+    called like a fixed page; sources called like a fixed page and with path separators -/
 example :
-    let s : Site := { names := [bs!"../x", bs!"Oldtown"], hidden := [false, false], letters := [35, 111],
-                      places := [bs!"Oldtown", bs!"a/b"], sourcePtrs := [bs!"S/../x", bs!"a/b"],
+    let s : Site := { names := [bs!"../x", bs!"Oldtown", bs!"Places", bs!"s1"], hidden := [false, false, false, false],
+                      letters := [35, 111, 112, 115],
+                      places := [bs!"Oldtown", bs!"a/b", bs!"Statistics", bs!"statistics"],
+                      sourcePtrs := [bs!"S/../x", bs!"sources", bs!"s1"],
                       showIndividuals := true, showPlaces := true, showFamilies := true,
                       showSurnames := true, showSources := true, showStatistics := true }
-    s.fileNames.all plain = true ∧ s.fileNames.Nodup
-    ∧ pageIndividual s.names (s.linkPlaces false) false 1 = bs!"oldtown-1.html" := by
+    s.fileNames.all plain = true ∧ s.fileNames.Nodup ∧ s.letters.Nodup ∧ s.sourcePtrs.Nodup
+    ∧ pageIndividualV s.names s.hidden (s.linkPlaces false) 1 = bs!"oldtown-1.html"
+    ∧ pageIndividualV s.names s.hidden (s.linkPlaces false) 2 = bs!"places-1.html"
+    ∧ pageIndividualV s.names s.hidden (s.linkPlaces false) 3 = bs!"s1-1.html"
+    ∧ s.placeKeys = [bs!"oldtown", bs!"a-b", bs!"statistics-1"]
+    ∧ s.sourceFiles = [bs!"S_2f_2e_2e_2fx.html", bs!"_73ources.html", bs!"s1.html"] := by
+  decide +kernel
+
+/-- a hidden living person takes no page name: the dead namesake is `ann-smith.html` -/
+example : individualKeysV [bs!"Ann Smith", bs!"Ann Smith", bs!"Bob"] [true, false, false] []
+    = [none, some bs!"ann-smith", some bs!"bob"]
+    ∧ pageIndividualV [bs!"Ann Smith", bs!"Ann Smith"] [true, false] [] 1 = bs!"ann-smith.html"
+    ∧ pageIndividualV [bs!"Ann Smith", bs!"Ann Smith"] [true, false] [] 0 = bs!"#"
+    ∧ pageIndividualV [bs!"Ann Smith", bs!"Ann Smith"] [false, false] [] 1 = bs!"ann-smith-1.html" := by
   decide +kernel
 
 end Gedcom.C19
